@@ -106,6 +106,9 @@ type PluginResponse struct {
 	Response   *pluginpb.CodeGeneratorResponse
 	PluginName string
 	PluginOut  string
+	// BaseOutDir is the directory that PluginOut is joined below when the
+	// response is written, if any.
+	BaseOutDir string
 }
 
 // NewPluginResponse returns a new *PluginResponse.
@@ -133,9 +136,13 @@ func ValidatePluginResponses(pluginResponses []*PluginResponse) error {
 			}
 			fileName := filepath.Join(pluginResponse.PluginOut, file.GetName())
 			// Compare by absolute path: the same output directory may be configured
-			// once as a relative and once as an absolute path.
+			// once as a relative and once as an absolute path - also below a base
+			// out directory, where both are joined to it.
 			key := fileName
-			if absFileName, err := filepath.Abs(fileName); err == nil {
+			if baseOutDir := pluginResponse.BaseOutDir; baseOutDir != "" && baseOutDir != "." {
+				key = filepath.Join(baseOutDir, fileName)
+			}
+			if absFileName, err := filepath.Abs(key); err == nil {
 				key = absFileName
 			}
 			if pluginName, ok := seen[key]; ok {
